@@ -349,6 +349,11 @@ def model_jobs(engine, prop, cases, variants_thorough=('asan', 'asan-O0', 'asan-
             n = cases[0] if q else (cases[1] if vi == 0 else max(cases[0], cases[1] // 10))
             for frm, cnt in split(n, parts):
                 jobs.append(Job(engine, variant, pseed(seed, prop, vi), frm, cnt, list(args), label=variant))
+        # the same histories in the plain build: AddressSanitizer's quarantine keeps freed blocks from being handed out
+        # again, which hides everything that depends on an address being REUSED (caches keyed by address, ABA)
+        n = cases[0] // 4 if q else cases[1] // 10
+        for frm, cnt in split(n, 4 if q else 8):
+            jobs.append(Job(engine, 'mon', pseed(seed, prop, 20), frm, cnt, list(args), label='plain'))
         if not q and vg_cases:
             for frm, cnt in split(vg_cases, parts):
                 jobs.append(Job(engine, 'plain', pseed(seed, prop, 9), frm, cnt, list(args), label='valgrind', valgrind=True, timeout=3000))
